@@ -124,6 +124,32 @@ def c_hex2int_body(msg):
     assert outcome(CC.hex2int, msg) == outcome(CS.hex2int, msg), "c hex2int == value of the hex string"
 
 
+PYC = repo("pyModeS.py_common")
+P_ = "pyModeS.py_common."
+
+
+@harness("C15", inputs={"a": HexStr((5, 6, 7))}, functions=[C + "is_icao_assigned", P_ + "is_icao_assigned"],
+         body_of=[C + "is_icao_assigned", P_ + "is_icao_assigned"], config="c")
+def c_is_icao_assigned_same(a):
+    # no standard-derived contract is used for this one: both real bodies are executed on the same symbolic
+    # address (any letter case, also the wrong lengths 5 and 7) and the outcomes compared
+    assert outcome(CC.is_icao_assigned, a) == outcome(PYC.is_icao_assigned, a), \
+        "is_icao_assigned: c_common and py_common agree on every address"
+
+
+@harness("C15", inputs={"a": Choice(None, "")}, functions=[C + "is_icao_assigned", P_ + "is_icao_assigned"],
+         body_of=[C + "is_icao_assigned", P_ + "is_icao_assigned"], config="c")
+def c_is_icao_assigned_guard(a):
+    assert outcome(CC.is_icao_assigned, a) == outcome(PYC.is_icao_assigned, a) == ("ret", False), \
+        "is_icao_assigned: False for None and the empty string in both modules"
+
+
+@harness("C15", inputs={"b": BinStr((4, 8, 24, 56))}, functions=[C + "bin2hex", P_ + "bin2hex"],
+         body_of=[C + "bin2hex", P_ + "bin2hex"], config="c")
+def c_bin2hex_same(b):
+    assert outcome(CC.bin2hex, b) == outcome(PYC.bin2hex, b), "bin2hex: c_common and py_common agree"
+
+
 @harness("C15", inputs={"msg": HexStr((14, 28))}, functions=[C + "df"], body_of=[C + "df"], config="c")
 def c_df_body(msg):
     assert outcome(CC.df, msg) == outcome(CS.df, msg), "c df == min(bits 1-5, 24)"
